@@ -8,12 +8,15 @@ import (
 	"go/parser"
 	"go/printer"
 	"go/token"
+	"os"
 	"reflect"
 	"sort"
 	"strings"
 
 	"github.com/dave/dst"
 	"github.com/dave/dst/decorator"
+	"github.com/dave/dst/decorator/resolver/goast"
+	"github.com/dave/dst/decorator/resolver/simple"
 
 	"verif/core"
 	"verif/gen"
@@ -27,6 +30,61 @@ type c12Case struct {
 	Extras bool     `json:"extras"`
 	Shared bool     `json:"shared"` // FileSet already holds another file
 	Reuse  bool     `json:"reuse"`  // one FileRestorer restores all files of the sequence
+	// Imports: "" (no import management) | keep | rebuild (import declarations removed before the
+	// restore, which has to create them) | alias (every path renamed through FileRestorer.Alias) |
+	// addref (a reference to a package the file does not import yet is appended)
+	Imports string `json:"imports,omitempty"`
+}
+
+var c12ImportModes = []string{"keep", "rebuild", "alias", "addref"}
+
+const c12Local = "example.com/local"
+
+// c12ImportEdit prepares an import-decorated file for the given mode and returns the alias map.
+func c12ImportEdit(f *dst.File, mode string) map[string]string {
+	switch mode {
+	case "rebuild":
+		var keep []dst.Decl
+		for _, dcl := range f.Decls {
+			if gd, ok := dcl.(*dst.GenDecl); ok && gd.Tok == token.IMPORT {
+				cgo := false
+				for _, s := range gd.Specs {
+					if s.(*dst.ImportSpec).Path.Value == `"C"` {
+						cgo = true
+					}
+				}
+				if !cgo {
+					continue
+				}
+			}
+			keep = append(keep, dcl)
+		}
+		f.Decls = keep
+		var imps []*dst.ImportSpec
+		for _, s := range f.Imports {
+			if s.Path.Value == `"C"` {
+				imps = append(imps, s)
+			}
+		}
+		f.Imports = imps
+	case "alias":
+		al := map[string]string{}
+		i := 0
+		dst.Inspect(f, func(n dst.Node) bool {
+			if id, ok := n.(*dst.Ident); ok && id.Path != "" && al[id.Path] == "" {
+				i++
+				al[id.Path] = fmt.Sprintf("zz%d", i)
+			}
+			return true
+		})
+		return al
+	case "addref":
+		f.Decls = append(f.Decls, &dst.GenDecl{Tok: token.VAR, Specs: []dst.Spec{&dst.ValueSpec{
+			Names:  []*dst.Ident{dst.NewIdent("_")},
+			Values: []dst.Expr{&dst.CallExpr{Fun: &dst.Ident{Name: "F", Path: "k.io/myvendor/api"}, Args: []dst.Expr{&dst.BasicLit{Kind: token.STRING, Value: `"s"`}}}},
+		}}})
+	}
+	return nil
 }
 
 var c12Edits = []string{"none", "fill-block", "fill-line", "fill-newline", "reverse", "drop-first", "dup-last"}
@@ -39,6 +97,7 @@ func init() {
 		Level: "model_checking",
 		Rule: "trees obtained by parsing every canonical corpus variant (<=1 gap insertion; thorough <=2), by filling every decoration point (block comments / line comments / newlines) and by editing every list (reverse, drop first, duplicate last via Clone), " +
 			"restored with Extras off and on, alone, into a populated FileSet, and as every ordered sequence of <=3 (quick: pairs + selected triples) corpus files restored by one Restorer (fresh FileRestorer per file, and one FileRestorer reused for all) into one FileSet, all files re-examined after the last restore; " +
+			"plus import-managed restores of every import-bearing template (<=1 insertion; thorough <=2; every ordered template pair through one Restorer / one FileRestorer) in four modes: imports kept, import declarations removed so that the restorer creates them, every path renamed through FileRestorer.Alias, a reference to a not yet imported package appended; " +
 			"oracle by reflection: every assigned Pos inside the one registered file, files disjoint, line table strictly increasing, comments sorted, order of all positions consistent with a fresh parse of the printed text, format.Node repeatable; " +
 			"state = (sources, edit, extras, shared); non-trivial = tree with comments or edits",
 		Assumptions: []string{"a fresh go/parser parse of the printed text is the reference for relative order"},
@@ -46,6 +105,9 @@ func init() {
 			u := gapUnits(gen.Templates(), 1)
 			for _, t := range gen.Templates() {
 				u = append(u, "seq/"+t.Name)
+			}
+			for _, t := range importTemplates() {
+				u = append(u, "imports/"+t.Name)
 			}
 			return u
 		},
@@ -61,7 +123,42 @@ func init() {
 }
 
 func runC12(ctx *core.Ctx, unit int) {
+	defer func() {
+		for k, v := range c12Stats {
+			ctx.Count(k, v)
+			delete(c12Stats, k)
+		}
+	}()
 	ts := gen.Templates()
+	if unit >= 2*len(ts) {
+		// import-managed restore: identifiers expand to selectors, import declarations are updated or created
+		its := importTemplates()
+		t := its[unit-2*len(ts)]
+		k := 1
+		if ctx.Thorough() {
+			k = 2
+		}
+		forEachCanonical(ctx, t, gen.Sigma, k, 0, 1, func(gc GapCase) {
+			for _, mode := range c12ImportModes {
+				for _, extras := range []bool{false, true} {
+					cs := c12Case{Srcs: []string{gc.Src}, Edit: "none", Extras: extras, Imports: mode}
+					ctx.Eval(cs, c12Check(cs))
+					ctx.R.Transitions++
+				}
+			}
+		})
+		for _, b := range its {
+			for _, mode := range c12ImportModes {
+				for _, reuse := range []bool{false, true} {
+					cs := c12Case{Srcs: []string{t.Src, b.Src}, Edit: "none", Reuse: reuse, Imports: mode}
+					ctx.State(fmt.Sprintf("impseq|%s|%s|%s|%v", t.Name, b.Name, mode, reuse), true)
+					ctx.Eval(cs, c12Check(cs))
+					ctx.R.Transitions++
+				}
+			}
+		}
+		return
+	}
 	if unit >= len(ts) {
 		// sequences: this template first, then every other template, then (third) a fixed pool
 		a := ts[unit-len(ts)]
@@ -278,14 +375,18 @@ func lockstep(a, b reflect.Value, path string, pairs *[]posPair) bool {
 	}
 	switch a.Kind() {
 	case reflect.Ptr, reflect.Interface:
-		if a.IsNil() || b.IsNil() {
-			return a.IsNil() == b.IsNil()
-		}
 		if a.Kind() == reflect.Ptr {
+			// resolution results and comment groups are not part of the shape (Obj is nil without Extras)
 			switch a.Interface().(type) {
 			case *ast.Object, *ast.Scope, *ast.CommentGroup:
 				return true
 			}
+		}
+		if a.IsNil() || b.IsNil() {
+			if a.IsNil() != b.IsNil() && os.Getenv("VERIF_C12_DEBUG") != "" {
+				fmt.Fprintf(os.Stderr, "lockstep: nil mismatch at %s (%v / %v)\n", path, a.IsNil(), b.IsNil())
+			}
+			return a.IsNil() == b.IsNil()
 		}
 		return lockstep(a.Elem(), b.Elem(), path, pairs)
 	case reflect.Struct:
@@ -301,6 +402,9 @@ func lockstep(a, b reflect.Value, path string, pairs *[]posPair) bool {
 		return true
 	case reflect.Slice:
 		if a.Len() != b.Len() {
+			if os.Getenv("VERIF_C12_DEBUG") != "" {
+				fmt.Fprintf(os.Stderr, "lockstep: length mismatch at %s (%d / %d)\n", path, a.Len(), b.Len())
+			}
 			return false
 		}
 		for i := 0; i < a.Len(); i++ {
@@ -324,17 +428,30 @@ func lockstep(a, b reflect.Value, path string, pairs *[]posPair) bool {
 	}
 }
 
+// c12Stats counts, per worker, how far the comparison with a fresh parse got (flushed by runC12).
+var c12Stats = map[string]int64{}
+
 func c12Check(cs c12Case) core.Outcome {
+	stat := func(what string) {
+		m := cs.Imports
+		if m == "" {
+			m = "off"
+		}
+		c12Stats["import management "+m+": "+what]++
+	}
 	fail := func(key, f string, a ...interface{}) core.Outcome {
 		src := cs.Srcs[len(cs.Srcs)-1]
-		return core.Outcome{Key: key, Desc: fmt.Sprintf("edit=%s extras=%v shared=%v reuse-filerestorer=%v files=%d\n", cs.Edit, cs.Extras, cs.Shared, cs.Reuse, len(cs.Srcs)) + fmt.Sprintf(f, a...) + "\nlast input:\n" + src}
+		return core.Outcome{Key: key, Desc: fmt.Sprintf("edit=%s extras=%v shared=%v reuse-filerestorer=%v files=%d imports=%q\n", cs.Edit, cs.Extras, cs.Shared, cs.Reuse, len(cs.Srcs), cs.Imports) + fmt.Sprintf(f, a...) + "\nlast input:\n" + src}
 	}
 	// comment-versus-token order is compared only for unedited parsed trees: there the printed text is
 	// the canonical input itself; in edited or hand-decorated trees go/printer may legitimately emit a
 	// comment later than its position (after a token it writes without consulting positions, or after
 	// the list when a multi-line comment would break an index list)
-	handDecorated := cs.Edit != "none"
+	handDecorated := cs.Edit != "none" || cs.Imports != "" && cs.Imports != "keep"
 	res := decorator.NewRestorer()
+	if cs.Imports != "" {
+		res = decorator.NewRestorerWithImports(c12Local, simple.New(stdNames))
+	}
 	res.Extras = cs.Extras
 	if cs.Shared {
 		if _, err := parser.ParseFile(res.Fset, "pre.go", "package pre\n\nvar x = 1\n", 0); err != nil {
@@ -349,9 +466,20 @@ func c12Check(cs c12Case) core.Outcome {
 	var files []restored
 	var fileRestorer *decorator.FileRestorer
 	for i, src := range cs.Srcs {
-		df, err := decorator.Parse(src)
-		if err != nil {
-			return core.Outcome{OK: true}
+		var df *dst.File
+		var err error
+		var alias map[string]string
+		if cs.Imports != "" {
+			dec := decorator.NewDecoratorWithImports(token.NewFileSet(), c12Local, goast.WithResolver(simple.New(stdNames)))
+			if p := guard(func() { df, err = dec.Parse(src) }); p != "" || err != nil {
+				return core.Outcome{OK: true} // decoration failures are C09/C15 matters
+			}
+			alias = c12ImportEdit(df, cs.Imports)
+		} else {
+			df, err = decorator.Parse(src)
+			if err != nil {
+				return core.Outcome{OK: true}
+			}
 		}
 		c12ApplyEdit(df, cs.Edit)
 		base := res.Fset.Base()
@@ -362,7 +490,14 @@ func c12Check(cs c12Case) core.Outcome {
 		if p := guard(func() {
 			if cs.Reuse {
 				fileRestorer.Name = fmt.Sprintf("f%d.go", i)
+				if alias != nil {
+					fileRestorer.Alias = alias
+				}
 				af, err = fileRestorer.RestoreFile(df)
+			} else if alias != nil {
+				fr := res.FileRestorer()
+				fr.Alias = alias
+				af, err = fr.RestoreFile(df)
 			} else {
 				af, err = res.RestoreFile(df)
 			}
@@ -448,18 +583,22 @@ func c12Check(cs c12Case) core.Outcome {
 			return fail("print-not-repeatable", "printing the restored ast twice gives different results")
 		}
 		if e1 != nil {
+			stat("printing failed (no order comparison)")
 			continue
 		}
 		// order of positions vs a fresh parse of the printed text
 		ffset := token.NewFileSet()
 		fresh, err := parser.ParseFile(ffset, "", b1.Bytes(), parser.ParseComments)
 		if err != nil {
+			stat("printed text does not parse (no order comparison)")
 			continue // arbitrary decorations may print text that does not parse; nothing to compare with
 		}
 		var pairs []posPair
 		if !lockstep(reflect.ValueOf(r.f), reflect.ValueOf(fresh), "File", &pairs) {
+			stat("restored ast and fresh parse differ in structure (no order comparison)")
 			continue
 		}
+		stat("files whose position order was compared with a fresh parse")
 		var rc, fc []*ast.Comment
 		for _, g := range r.f.Comments {
 			rc = append(rc, g.List...)
